@@ -311,11 +311,15 @@ VECTORS = [
     ("harmonic.centers", _XY + "harmonic {\n  name r\n  colvars x y\n  centers {V}\n  forceConstant 1.0\n}\n", True, "any"),
     ("harmonic.targetCenters", _XY + "harmonic {\n  name r\n  colvars x y\n  centers 1 1\n  forceConstant 1.0\n  targetCenters {V}\n  targetNumSteps 4\n}\n", False, "any"),
     ("abf.maxForce", _XY + "abf {\n  name a\n  colvars x y\n  fullSamples 2\n  maxForce {V}\n}\n", False, "nonneg"),
-    ("meta.gaussianSigmas", _XY + "metadynamics {\n  name m\n  colvars x y\n  hillWeight 0.1\n  gaussianSigmas {V}\n  newHillFrequency 2\n}\n", False, "any"),
-    ("opes.gaussianSigma", _XY + "opes_metad {\n  name o\n  colvars x y\n  newHillFrequency 2\n  barrier 10\n  gaussianSigma {V}\n}\n", True, "any"),
+    ("meta.gaussianSigmas", _XY + "metadynamics {\n  name m\n  colvars x y\n  hillWeight 0.1\n  gaussianSigmas {V}\n  newHillFrequency 2\n}\n", False, "pos"),
+    ("opes.gaussianSigma", _XY + "opes_metad {\n  name o\n  colvars x y\n  newHillFrequency 2\n  barrier 10\n  gaussianSigma {V}\n}\n", True, "pos"),
     ("walls.upperWalls", _XY + "harmonicWalls {\n  name w\n  colvars x y\n  upperWalls {V}\n  forceConstant 1.0\n}\n", False, "any"),
 ]
-VECTOR_VALUES = ["1", "1 2", "1 2 3", "1 x", "x 1", "nan 2", "", "0.5 0.25", "1 2abc", "1e300 1", "3 1e-300"]
+# three variables, the odd element in the middle / at the end / one too many or too few
+_XYZ = _XY + cv("z", 3, GRIDCV, "    oneSiteTotalForce on\n")
+VECTORS3 = [(l + "/3", t.replace(_XY, _XYZ).replace("colvars x y", "colvars x y z").replace("centers 1 1\n", "centers 1 1 1\n"), p, e) for l, t, p, e in VECTORS]
+VECTOR3_VALUES = ["1 2 3", "1 x 3", "1 2 x", "1 2", "1 2 3 4", "1 nan 3", "1 -1 3", "1 2 -1", "0.5 0.25 0.125", "1", "1 2 3abc"]
+VECTOR_VALUES = ["0 1", "1 0", "1", "1 2", "1 2 3", "1 x", "x 1", "nan 2", "", "0.5 0.25", "1 2abc", "1e300 1", "3 1e-300"]
 
 
 # ------------------------------------------------------------------------------------------------
@@ -368,6 +372,8 @@ VALIDATE = [
     ("kmoving", {"rof": "3"}, _render_kmoving, {"forceConstant": "2.0", "targetForceConstant": "4.0", "targetNumSteps": "4", "targetNumStages": "2"}, {}, {}, None),
     ("kmoving", {"rof": "3"}, _render_kmoving, {"forceConstant": "2.0", "targetForceConstant": "4.0", "targetNumSteps": "4"}, {"lambdaSchedule": ["0", "0.5", "1"]}, {}, None),
     ("kmoving", {"rof": "3"}, _render_kmoving, {"forceConstant": "2.0", "targetNumSteps": "4", "targetNumStages": "2"}, {}, {"decoupling": "on"}, None),
+    ("kmoving", {"rof": "3"}, _render_kmoving, {"forceConstant": "2.0", "targetForceConstant": "4.0", "targetNumSteps": "4", "lambdaExponent": "2"}, {}, {}, None),
+    ("kmoving", {"rof": "3"}, _render_kmoving, {"forceConstant": "2.0", "lambdaExponent": "2"}, {}, {}, None),
 ]
 VALIDATE_VALUES = ["0", "-1", "1", "2", "3", "0.5", "-0.5", "2147483647", "1e300", "1e-300", "nan", "inf", "-", "4294967296"]
 
@@ -425,7 +431,16 @@ def _ebmeta(vals, minval=None, expand=False):
         line += " s:targetDistMinVal=%s" % minval
     return (line, conf + "}\n", files)
 
+def _walls_scaled(width, lo, up):
+    """harmonicWalls on one variable of the given width: the walls coincide when closer than 1e-6 widths"""
+    conf = cv("x", 1, "  width %s\n" % width) + "harmonicWalls {\n  name w\n  colvars x\n  lowerWalls %s\n  upperWalls %s\n  forceConstant 1.0\n}\n" % (lo, up)
+    return ("validate kind=walls n=1 w=%s s:forceConstant=1.0 l:lowerWalls=%s l:upperWalls=%s" % (width, lo, up), conf, {})
+
 VALIDATE2 = (
+    [_walls_scaled(w, lo, up) for w, lo, up in (("1e-8", "0", "2e-9"), ("75e-10", "-19e-10", "75e-10"), ("1", "0", "2e-9"), ("1", "0", "4e-6"),
+                                                 ("1", "0", "25e-8"), ("1e6", "0", "0.5"), ("1e6", "0", "4"), ("1e8", "0", "50"), ("1e8", "0", "400"),
+                                                 ("1e-8", "0", "25e-16"), ("1e-8", "0", "4e-14"), ("1e-8", "1", "1.000000002"), ("1e8", "-200", "200"),
+                                                 ("1e-8", "0", "-2e-9"), ("1e6", "3", "3"))] +
     [_opessn(s_, False, None) for s_ in ("0.5", "0", "-1", "0.001", "1000", "x", "1 2", None)] +
     [_opessn(None, False, None, adaptive=True), _opessn("0", False, None, adaptive=True)] +
     [_opessn("0.5", True, p) for p in (None, "3 0.5", "1 0.5", "1 0.1", "1.0001 0.1", "0.5 0.5", "3 0", "3 -1", "3 0.6", "3 1.2", "3", "3 0.5 1", "9 0.8", "9 0.9", "1.5 0.3", "1.5 0.35", "x 0.5")] +
@@ -440,5 +455,22 @@ VALIDATE2 = (
 
 # histogram custom grid on two variables: list lengths of width / boundaries
 VECTORS += [
-    ("histgrid.width", _XY + "histogram {\n  name h\n  colvars x y\n  histogramGrid {\n    width {V}\n    lowerBoundary 0 0\n    upperBoundary 4 4\n  }\n}\n", True, "any"),
+    ("histgrid.width", _XY + "histogram {\n  name h\n  colvars x y\n  histogramGrid {\n    width {V}\n    lowerBoundary 0 0\n    upperBoundary 4 4\n  }\n}\n", True, "pos"),
+]
+
+
+# ------------------------------------------------------------------------------------------------
+# valid configurations with schedules on frequencies that are not powers of two (large absolute step numbers)
+# ------------------------------------------------------------------------------------------------
+BIGSTEP = [
+    ("module", "colvarsTrajFrequency 3\ncolvarsRestartFrequency 5\n" + cv("x", 1, GRIDCV)),
+    ("colvar-runave-corr", cv("x", 1, GRIDCV + "  runAve on\n  runAveLength 3\n  runAveStride 3\n  corrFunc on\n  corrFuncLength 3\n  corrFuncStride 3\n  corrFuncWithColvar x\n")),
+    ("colvar-tsf", cv("x", 1, GRIDCV + "  timeStepFactor 3\n") + "harmonic {\n  name r\n  colvars x\n  centers 1.0\n  forceConstant 2.0\n  timeStepFactor 3\n}\n"),
+    ("harmonic-moving", cv("x", 1, GRIDCV) + "harmonic {\n  name r\n  colvars x\n  centers 1.0\n  forceConstant 2.0\n  targetCenters 2.0\n  targetNumSteps 12\n  targetNumStages 3\n  outputFreq 7\n}\n"),
+    ("harmonic-moving-work", cv("x", 1, GRIDCV) + "harmonic {\n  name r\n  colvars x\n  centers 1.0\n  forceConstant 2.0\n  targetCenters 2.0\n  targetNumSteps 12\n  outputFreq 7\n  outputAccumulatedWork on\n}\n"),
+    ("metadynamics", cv("x", 1, GRIDCV) + "metadynamics {\n  name m\n  colvars x\n  hillWeight 0.1\n  hillWidth 2\n  newHillFrequency 3\n  gridsUpdateFrequency 6\n  outputFreq 5\n}\n"),
+    ("abf", cv("x", 1, GRIDCV, "    oneSiteTotalForce on\n") + "abf {\n  name a\n  colvars x\n  fullSamples 2\n  outputFreq 5\n  historyFreq 5\n}\n"),
+    ("histogram", cv("x", 1, GRIDCV) + "histogram {\n  name h\n  colvars x\n  outputFreq 7\n}\n"),
+    ("opes", cv("x", 1, GRIDCV) + "opes_metad {\n  name o\n  colvars x\n  newHillFrequency 3\n  barrier 10\n  gaussianSigma 0.5\n  outputFreq 5\n}\n"),
+    ("alb", cv("x", 1) + "alb {\n  name b\n  colvars x\n  centers 1\n  UpdateFrequency 6\n}\n"),
 ]
